@@ -14,8 +14,8 @@ SPEC = dict(
     nontrivial=nontrivial,
     rule="cases = one generated configuration (main YAML with DatasetPrefix and trace/parent id field names + a rules file with "
          "deterministic / dynamic / rules-based samplers of pairwise different rates under environment names, dataset names, "
-         "prefixed dataset names and __default__; 8% without __default__, loaded unvalidated) loaded through the real loader into a "
-         "real fileConfig, then a history of: classify <key> (IsLegacyAPIKey), selkey (DetermineSamplerKey), lookup "
+         "prefixed dataset names and __default__; 8% without __default__, loaded unvalidated) written to a temp dir and loaded with config.NewConfig into a "
+         "real fileConfig, then a history of: classify <key> (IsLegacyAPIKey), reload (55% of cases: the rules file on disk is rewritten - __default__ and/or named entries changed, added, removed - and fileConfig.Reload() is called, followed by lookups for destinations with and without an entry), selkey (DetermineSamplerKey), lookup "
          "(GetSamplerConfigForDestName + GetSamplingKeyFieldsForDestName), span (one event through the real Router.batch handler as "
          "msgpack or JSON, or through the OTLP msgpack path, with a stubbed environment lookup; the span the router hands to the "
          "collector goes into a real CollectorWorker.processSpan) and decide (real makeDecision with a real SamplerFactory). "
